@@ -1,1 +1,45 @@
-import MpirProofs.Lemmas.Rootrem
+/-
+  C09, part `rootrem` — the n-th root algorithms behind mpn_rootrem.  Property theorems only; the lemmas are in
+  MpirProofs/Lemmas/Rootrem.lean (integer Newton iteration) and MpirProofs/Lemmas/RootremBc.lean (the loops of
+  mpn_rootrem_basecase).  The models (Mpir/Model/Rootrem.lean) mirror the C at value + limb-count level and
+  answer the op `mpn_rootrem_basecase` of the differential run.
+-/
+import MpirProofs.Lemmas.RootremBc
+namespace Mpir.Rootrem
+open Mpir Mpir.Root Mpir.Gen.SqrtTabs
+
+/-- mpn_rootrem_basecase ({up, un} = U, nth) — rootrem_basecase.c:80-201 — for every operand `U ≥ 1` below 2^32 bits
+    and every index `2 ≤ nth < 2^64`:
+    * the model never reaches `none`: no `ASSERT_ALWAYS` fires (in particular the one after the single final
+      decrement, :191), mpn_tdiv_qr is called with `un ≥ pn`, no limb of `qp` is read before it is written, the
+      test `un - pn == xn` (:163) sees every quotient of `xn + 1` limbs, the saturated iterate (:168-170) is right;
+    * the Newton loop terminates (variant `xnb + 1 − n_valid_bits`; `n_valid_bits > adj` makes it grow) — the fuel
+      `xnb + 1` of the model is never exhausted;
+    * the result is `r = ⌊U^(1/nth)⌋` (`r^nth ≤ U < (r+1)^nth`, `iroot_spec`) and the remainder `U − r^nth`; the returned
+      size is the normalised limb count of the remainder (`MPN_NORMALIZE`, printed by the op from the same value).
+    Loop invariants (Lemmas/RootremBc.lean): bit phase `s ≤ x ≤ s + 2^(bit+1)`; Newton phase `s ≤ x ≤ s + 2^m`,
+    `(x − s − 1)·2^v ≤ 2^(m+1)` with `n_valid_bits = v + bits(nth) − 1`, `v` doubling, `m = xnb − 1 − bits(nth)`.
+    The bound on the operand is needed only for the `un - pn == xn` test (it needs `4·nth² ≤ B^xn`). -/
+theorem rootrem_basecase_spec (U nth : Nat) (hU : 0 < U) (hn : 2 ≤ nth) (hnB : nth < B) (hsz : bitLen U ≤ 2 ^ 32) :
+    rootremBasecase U nth = some (iroot nth U, U - iroot nth U ^ nth) ∧
+    iroot nth U ^ nth ≤ U ∧ U < (iroot nth U + 1) ^ nth :=
+  ⟨rootremBasecase_ok U nth hU hn hnB hsz, iroot_spec nth U (by omega)⟩
+
+-- non-vacuity: the Newton path with a saturated iterate (root B − 1), the bit-phase path, the root-is-1 exit
+example : rootremBasecase (B ^ 3 - 1) 3 = some (B - 1, B ^ 3 - 1 - (B - 1) ^ 3) ∧
+    rootremBasecase 1000 3 = some (10, 0) ∧ rootremBasecase (2 ^ 100 + 12345) 2 = some (2 ^ 50, 12345) ∧
+    rootremBasecase 12345 64 = some (1, 12344) := by decide +kernel
+
+/-- the same below the size bound where mpn_rootrem uses the basecase (`un < ROOTREM_THRESHOLD`, regenerated constant). -/
+theorem rootrem_basecase_spec_threshold (U nth : Nat) (hU : 0 < U) (hn : 2 ≤ nth) (hnB : nth < B)
+    (hun : limbLen U < rootremThreshold) :
+    rootremBasecase U nth = some (iroot nth U, U - iroot nth U ^ nth) := by
+  refine (rootrem_basecase_spec U nth hU hn hnB ?_).1
+  have h : limbLen U < 2 ^ 26 := Nat.lt_trans hun (by decide)
+  unfold limbLen at h
+  omega
+
+example : limbLen (B ^ 5 - 1) < rootremThreshold ∧
+    rootremBasecase (B ^ 5 - 1) 5 = some (B - 1, B ^ 5 - 1 - (B - 1) ^ 5) := by decide +kernel
+
+end Mpir.Rootrem
